@@ -53,8 +53,6 @@ def handle (op : String) (fs : List (String × String)) : String :=
       showOut (fun gs => showRuns (runsOf 0 (canonKV (gs.map fun g => (g, 0))))) (Otl.readSet b pos)
     else if op == "tmotl.classdef" then
       showOut (fun es => showRunsV (runsOf 0 ((canonKV es).filter fun p => p.2 != 0))) (Otl.classdefRead b pos)
-    else if op == "tmotl.classdeffixed" then
-      showOut (fun es => showRunsV (runsOf 0 ((canonKV es).filter fun p => p.2 != 0))) (Otl.classdefReadFixed b pos)
     else "bad-op"
   | _, _ => "bad-case"
 
